@@ -230,6 +230,29 @@ for k, v in EXTRA6.items():
     EXTRA[k] = EXTRA.get(k, "") + v
 TECH_EXTRA["C14"] = TECH_EXTRA.get("C14", "") + "; process-stall monitor (schedules overlapping a VM stall are inconclusive, not judged)"
 
+EXTRA7 = {
+ "C02": " Sealed frames kept alive as objects while their builder does other work, refusing paths included (bytes and round trip afterwards).",
+ "C03": " First-contact race: several workers handle copies of one signed frame of a known router without session object, storage lookup stretched.",
+ "C04": " An end-to-end key setup between the two routers completes at every message position of their handshake (both initiators): if both ends register the link, traffic must cross it. One history is a known finding (known_findings.json): the dialling router serves a hello request between its handshake request and the response.",
+ "C05": " Reflection after both directions of a link rolled their keys over.",
+ "C07": " The victim's own frames reflected to it (as sent, and with a genuine hop record of the neighbour).",
+ "C08": " Announcements after idle minutes and session-cleaner ticks (virtual time).",
+ "C09": " Two announcements handled by one router at the same time (the second inside the link send of the first).",
+ "C10": " Routing-table housekeeping at every router before the traffic starts.",
+ "C11": " Lookups one at a time between table updates (sparse lookups).",
+ "C12": " The destination reverses the block where it is and replies over the frame's own block (when the reply fits its buffer).",
+ "C13": " The authenticated peer chooses its sequence numbers (ends of the number space, backwards); synchronous deliveries under a 30 s stall watchdog.",
+ "C14": " The second initiator's Send overlapped with a frame worker serving the first one's request: at the link-send suspension point inside Send (every continuation), and through the real tun trigger with two goroutines. Frames of the previous keys arriving after the new setup.",
+ "C17": " Frames parsed out of a buffer the caller owns (several per buffer, capacities on the builder's classes); the copies a router makes of one frame for several links compared with the frame received (hub meshes).",
+ "C19": " Second names for one friend.",
+ "C20": " API clients (silent, mid-request, idle) connected while the router stops.",
+}
+for k, v in EXTRA7.items():
+    EXTRA[k] = EXTRA.get(k, "") + v
+TECH_EXTRA["C14"] = TECH_EXTRA.get("C14", "") + "; overlap of a local Send with a frame worker at an existing suspension point (link send) and by real goroutines through the tun trigger"
+TECH_EXTRA["C04"] = TECH_EXTRA.get("C04", "") + "; session events (end-to-end key setup) injected at message boundaries by the wire scheduler; known-findings matcher on the failing history"
+ENGINE_EXTRA["C17"] = ENGINE_EXTRA.get("C17", "") + " + E1 vmesh (fan-out copies)"
+
 NOT_YET = "check not implemented yet in this revision of /verif (work in progress; see DESIGN.md §8)"
 
 def main():
